@@ -744,6 +744,29 @@ func init() {
 			return tuple{i.fileInfo(baseName(a[0], r.name), r.node), iface{}}
 		}
 	}
+	// syscall.Stat / syscall.Lstat fill a Stat_t (type and permission bits, owner, rdev, size, inode)
+	sysStat := func(follow bool) intrinsic {
+		return func(i *interpreter, fr *frame, fn *ssa.Function, a []value) value {
+			if i.fsFault("stat") {
+				return i.errno(eIO)
+			}
+			r := i.resolve(fr, a[0], follow)
+			if r.errno != 0 {
+				return i.errno(r.errno)
+			}
+			if r.node == nil {
+				return i.errno(eNOENT)
+			}
+			fi := i.fileInfo(baseName(a[0], r.name), r.node)
+			T := i.namedType("os", "fileStat")
+			fs := (*fi.v.(*value)).(structure)
+			sys := fs[fieldIndex(T, "sys")].(structure)
+			*a[1].(*value) = append(structure(nil), sys...)
+			return iface{}
+		}
+	}
+	R("syscall.Stat", sysStat(true))
+	R("syscall.Lstat", sysStat(false))
 	R("os.Stat", stat(true, "stat"))
 	R("os.Lstat", stat(false, "lstat"))
 	R("(*os.File).Stat", func(i *interpreter, fr *frame, fn *ssa.Function, a []value) value {
